@@ -30,6 +30,12 @@ REGISTRY_RULE = ("random type graphs of 1..48 (thorough 96) identities (uniform 
                  "register_type / register_types / map_into_portable calls with repeats and aliases, a snapshot of Registry::types() after every call. "
                  "Non-trivial: the final registry has at least one reference; distinct = distinct case lines.")
 
+META_RULE = ("a generated corpus of Rust type expressions over every built-in constructor (fixed part: every alias family Box/Rc/Arc/&/&mut of u8, String, Vec<u8>, Option<u32>, PhantomData<u8>, "
+             "each also wrapped once more; Vec/VecDeque/slice; String/str; PhantomData instantiations; the confusable pairs Range/RangeInclusive, BinaryHeap/BTreeSet/slice; tuple arities 0..20; "
+             "random part: N random expressions of depth <= 3), closed under sub-expressions and impl-mentioned types, compiled into a program against /repo. "
+             "meta: every unordered pair (A, B) of the corpus: ==, cmp both ways, hash, type_id equality, and type_info() equality (for equal pairs and a 1/7 sample of the others). "
+             "tinfo: type_info() of every corpus type with references resolved against the corpus. Non-trivial: an equal pair of syntactically different expressions / a definition with references.")
+
 PROPS = {
     'C12': dict(
         streams=[
@@ -84,7 +90,8 @@ PROPS = {
         assumptions=["TypeId is an injective name of a type (identities modelled as Nat)"],
     ),
     'C05': dict(
-        streams=[dict(name='registry', quick=800, thorough=8000, filter=only('C05:'))],
+        streams=[dict(name='registry', quick=800, thorough=8000, filter=only('C05:')),
+                 dict(name='meta', pg=True, mode='meta', quick=60, thorough=400, filter=only('C05:'))],
         rule=REGISTRY_RULE + " C05 oracle: registry length = number of identities reachable from the registered roots (Spec.reach); per-node type_info() evaluation counters (harness-side) are 1 exactly for reachable identities and never above 1; re-registering present roots (through any alias, with repetition and interleaving) leaves Registry::types() unchanged; alias nodes (same Identity, different fn pointer) get the id of their target.",
         trusted_base=COMMON_TB,
         assumptions=["aliases of built-in std types (Box/Rc/Arc/&/Vec/VecDeque/slice/String/str/PhantomData) are covered by the meta stream of C16; here aliasing is exercised through the harness's Alias<N,K> family and the real PhantomData identity"],
@@ -114,5 +121,12 @@ PROPS = {
         trusted_base=COMMON_TB,
         assumptions=["typestate-invalid programs cannot be expressed (rustc rejects them: C20)",
                      "the PhantomData clause for the derive and the built-in impls is checked with C09/C04's corpora (scan for phantom members), see DESIGN.md"],
+    ),
+    'C16': dict(
+        streams=[dict(name='meta', pg=True, mode='meta', quick=60, thorough=400, filter=only('C16:')),
+                 dict(name='tinfo', pg=True, mode='tinfo', quick=60, thorough=400, filter=only('C16:'))],
+        rule=META_RULE,
+        trusted_base=COMMON_TB + ["rustc's TypeId is an injective name of a type; the corpus is a generated Rust program compiled against /repo on every run"],
+        assumptions=["pairs are drawn from a finite generated corpus (closed under sub-expressions); the theorems quantify over all type expressions of the modelled grammar"],
     ),
 }
